@@ -658,7 +658,7 @@ def main():
     if os.path.exists(os.path.join(MUT, 'index.json')):
         old = json.load(open(os.path.join(MUT, 'index.json')))
     for k, v in old.items():
-        if k.startswith('revert_'):
+        if k.startswith('revert_') or v.get('external'):
             index[k] = v
     bad = 0
     for name, file, o, n, expect, count in T:
